@@ -500,7 +500,11 @@ func runC19(r *mon.Run, replay string) {
 	}
 	parallel(r.Pick(300, 5000), func(i int) { runC19History(r, uint64(190000+i)) })
 	parallel(r.Pick(48, 600), func(i int) { runC19PruneRace(r, uint64(195000+i)) })
-	parallel(r.Pick(3, 24), func(i int) { runC19Backlog(r, uint64(197000+i)) })
+	// one at a time: each holds ~1300 ledgers, and the race runtime gives up
+	// ("too many address space collisions") when several run next to the rest
+	for i := 0; i < r.Pick(3, 8); i++ {
+		runC19Backlog(r, uint64(197000+i))
+	}
 	r.Floor("prunes_of_a_backlog_of_more_than_1000_bodies", 3)
 	r.Floor("prune_race_submission_started_by_the_hook", 20)
 	r.Floor("pruned_node_audits", 500)
